@@ -121,6 +121,13 @@ var c05Dump = dump.Options{Normalise: true, ExportedOnly: true, Skip: map[string
 				return "nil", true // an empty payload buffer and no payload are the same value
 			}
 		}
+		// a util.Buffer held by value (error data, IPv4 options) has no exported member: its content is
+		// what it holds
+		if v.Kind() == reflect.Struct && v.Type() == reflect.TypeOf(util.Buffer{}) {
+			c := reflect.New(v.Type()).Elem()
+			c.Set(v)
+			return fmt.Sprintf("buffer:%x", c.Addr().Interface().(*util.Buffer).Bytes()), true
+		}
 		if st == "NXActionNote" && f == "Note" {
 			b := v.Bytes()
 			for len(b) > 0 && b[len(b)-1] == 0 {
